@@ -1709,6 +1709,7 @@ func (e *Enc) writeSet(fr *Frame, li *loopInfo, st *State, instr ssa.Instruction
 			cn, cs := itComp(e.mapInfo(mt), x)
 			ws.whole(cn, cs)
 			ws.whole(cn+"#steps", "Int")
+			ws.whole(cn+"#dom0", cs)
 		}
 	case *ssa.Select:
 		ws.whole("CH:len", "(Array Int Int)")
